@@ -79,6 +79,7 @@ void SimulateEbpf::dump_registers()
 
 int SimulateEbpf::run(int max_cycles, int step)
 {
+  enable_signal_handler();
   stop_running = 0;
 
   while (stop_running == 0)
